@@ -89,7 +89,7 @@ RETRIEVE = re.compile(r'^ANA_CHECK \(evtStore\(\)->retrieve\((\w+), "(\w+)"\)\);
 SIZE_USE = r"(?:\(\*(?P<v1>\w+)\)\.size\(\)|(?P<v2>\w+)(?:->|\.)size\(\))"
 SIZE_RE = re.compile(r"(?P<cast>static_cast<int>\()?" + SIZE_USE + r"(?(cast)\))")
 
-SUM_UPD = re.compile(r"^(\w+) = \((\w+)\+(\w+)->(\w+)\(\)\);$")
+SUM_UPD = re.compile(r"^(\w+)=\((\w+)\+(\w+)->(\w+)\(\)\);$")  # matched on the text without blanks
 
 
 def read_query(gen: Dict[str, str], forms: List[Dict[str, Any]]) -> List[Dict[str, Any]]:
@@ -163,7 +163,7 @@ def read_query(gen: Dict[str, str], forms: List[Dict[str, Any]]) -> List[Dict[st
     ifs = [d for d in decls if d[2] is None]
     form0 = forms[0]
     want_acc = 1 if (single and form0["form"] == "agg") else 0
-    has_cond = single and (form0["form"] == "cond" or (form0["form"] == "agg" and ("cond" in form0["upd"] or "condIn" in form0["upd"])))
+    has_cond = single and (form0["form"] in ("cond", "condx") or (form0["form"] == "agg" and ("cond" in form0["upd"] or "condIn" in form0["upd"])))
     if len(acc_decls) != len(aggs) + want_acc or len(ifs) != (1 if has_cond else 0):
         raise Unreadable(f"declarations {decls} do not fit {len(aggs)} aggregate operands and the form {form0['form']}")
     leaf_decls: List[str] = []
@@ -179,9 +179,9 @@ def read_query(gen: Dict[str, str], forms: List[Dict[str, Any]]) -> List[Dict[st
         cname, _ = X.agg_canon(a)
         upd = [l for l in body if l.startswith(name + " = ")]
         if a[0] == "Count":
-            ok = upd == [f"{name} = ({name}+1);"]
+            ok = [u.replace(" ", "") for u in upd] == [f"{name}=({name}+1);"]
         else:
-            m = SUM_UPD.match(upd[0]) if len(upd) == 1 else None
+            m = SUM_UPD.match(upd[0].replace(" ", "")) if len(upd) == 1 else None
             ok = bool(m) and m.group(2) == name and m.group(4) == a[1]
         if not ok:
             raise Unreadable(f"accumulator {name} is not updated like {a}: {upd}")
@@ -269,6 +269,11 @@ def impl_for_spec(p: Dict[str, Any], form: Dict[str, Any]) -> Dict[str, Any]:
         if len(lines) != 5 or p["fill"] != "R":
             raise Unreadable(f"conditional lines {lines} fill {p['fill']}")
         out.update(cond_pieces(lines))
+    elif form["form"] == "condx":
+        if len(lines) != 5:
+            raise Unreadable(f"conditional lines {lines}")
+        out.update(cond_pieces(lines))
+        out["expr"] = p["fill"]
     else:
         d = SCALAR_DECL.match(lines[0])
         if not d or d.group(2) != "A" or p["fill"] != "A":
